@@ -633,7 +633,7 @@ impl<'a: 'b, 'b, T: Elem + Clone + PartialEq, A: BumpAllocatorTypedScope<'a> + C
                 Res::Unit
             }
             Op::Splice(r, vs, consume) => {
-                let out: Vec<u32> = s.splice(rng(r), hint_iter::<T>(vs, 0)).take(*consume).map(|e| e.val()).collect();
+                let out: Vec<u32> = s.splice(rng(r), hint_iter::<T>(vs, (*consume / 5) as u8)).take(*consume % 5).map(|e| e.val()).collect();
                 Res::Vals(out)
             }
             _ => Res::Unsupported,
